@@ -59,6 +59,9 @@ def load():
     return m
 
 
+load()   # at import: module code must not be exec'd under CrossHair's tracing
+
+
 class Oracle(object):
     """schedule decisions, all fixed up front from solver variables"""
     def __init__(self, preempts, targets, forced, fires):
